@@ -15,8 +15,8 @@ pub open spec fn disjoint_side(s: Side) -> bool {
 }
 pub open spec fn one_bit(k: u64) -> bool { k != 0 && k & ((k - 1) as u64) == 0 }
 
-/// Well-formed position: the "type invariant" of a chess position.  Every clause is preserved by `rules_succ`
-/// for moves satisfying `move_wf` that do not capture a king (lemma_wf_preserved).
+/// Well-formed position: the "type invariant" of a chess position (structural part).  Every clause is preserved by
+/// `rules_succ` for moves satisfying `move_wf` that do not capture a king (lemma_wf_preserved).
 pub open spec fn board_wf(v: Pos) -> bool {
     &&& v.turn <= 1
     &&& disjoint_side(v.w) &&& disjoint_side(v.b) &&& all_occ(v.w) & all_occ(v.b) == 0
@@ -27,14 +27,15 @@ pub open spec fn board_wf(v: Pos) -> bool {
     &&& (v.b.ks ==> v.b.kings & E8_MASK != 0 && v.b.rooks & H8_MASK != 0)
     &&& (v.b.qs ==> v.b.kings & E8_MASK != 0 && v.b.rooks & A8_MASK != 0)
     &&& ep_wf(v)
-    &&& v.half < 4096          // the 12-bit undo field; the property's own quantifier (C03: 0..4095)
-    &&& 1 <= v.full < 0xffff_ffff   // machine arithmetic: u32 full-move counter (assumption, listed)
 }
+/// machine-arithmetic side conditions (assumptions, listed in the evidence): the half-move clock fits the 12-bit undo
+/// field of `Move` (the property's own quantifier, C03: 0..4095) and the u32 full-move counter does not wrap
+pub open spec fn clocks_ok(v: Pos) -> bool { v.half < 4096 && v.full < 0xffff_ffff }
 pub open spec fn ep_wf(v: Pos) -> bool {
     ||| v.ep == 0
-    ||| (v.turn == 0 && 16 <= v.ep < 24 && v.b.pawns & sqm((v.ep + 8) as u32) != 0
+    ||| (v.turn == 0 && 16 <= v.ep && v.ep < 24 && v.b.pawns & sqm((v.ep + 8) as u32) != 0
          && (all_occ(v.w) | all_occ(v.b)) & (sqm(v.ep) | sqm((v.ep - 8) as u32)) == 0)
-    ||| (v.turn == 1 && 40 <= v.ep < 48 && v.w.pawns & sqm((v.ep - 8) as u32) != 0
+    ||| (v.turn == 1 && 40 <= v.ep && v.ep < 48 && v.w.pawns & sqm((v.ep - 8) as u32) != 0
          && (all_occ(v.w) | all_occ(v.b)) & (sqm(v.ep) | sqm((v.ep + 8) as u32)) == 0)
 }
 
